@@ -23,6 +23,8 @@ def _run(case):
         p.size = Size(iterkit.TERM0[0] + 3, iterkit.TERM0[1] + 2)
     elif fits == "padding-too-big":
         pad = ExactPadding(iterkit.TERM0[0], iterkit.TERM0[1], 1, 1)
+    elif fits == "padding-raises":
+        pad = _raising_padding()
     cache = case["cacheb"] if case["cachekind"] == "bool" else case["cachen"]
     args = {"none": None, "own": RenderArgs(C["Probe"], C["ProbeArgs"]("a1", 0)),
             "incompatible": RenderArgs(C["Other"])}[case["args"]]
@@ -47,7 +49,18 @@ def _run(case):
             it = RenderIterator._from_render_data_(p, data, args, pad, case["loops"], cache,
                                                    finalize=case.get("finalize", True))
     except Exception as e:  # noqa: BLE001
-        return {"verdict": type(e).__name__}
+        failed = type(e).__name__
+    else:
+        failed = None
+    if failed is not None:
+        # (outside the handler: the traceback, which holds the half-built iterator, is gone)
+        res = {"verdict": failed}
+        if case["via"] == "from_data" and case["data"] == "ok" and not case.get("finalize", True):
+            import gc
+
+            gc.collect()  # a half-built iterator must not take the caller's data with it
+            res["caller_data_finalized"] = bool(data.finalized)
+        return res
     res = {"verdict": "ok", "loop": it.loop, "cached": bool(it._cached)}
     if fits != "yes":
         # the oversized iterator works: its first frame has the (padded) size asked for
@@ -60,6 +73,28 @@ def _run(case):
             res["first_frame"] = type(e).__name__
     it.close()
     return res
+
+
+_PAD = []
+
+
+def _raising_padding():
+    """A user padding (extension API) whose size computation fails."""
+    if not _PAD:
+        from term_image.padding import ExactPadding
+
+        class PadError(Exception):
+            pass
+
+        class FailingPadding(ExactPadding):
+            __slots__ = ()
+
+            def get_padded_size(self, render_size):
+                raise PadError("injected")
+
+        PadError.__name__ = "PadError"
+        _PAD.append(FailingPadding)
+    return _PAD[0](1, 1, 1, 1)
 
 
 def run(rep: Report) -> None:
@@ -80,6 +115,8 @@ def run(rep: Report) -> None:
         want = {"verdict": row["verdict"]}
         if row["verdict"] == "ok":
             want.update(loop=row["loop"], cached=row["cached"])
+        elif row.get("survives"):
+            want["caller_data_finalized"] = False
         # IncompatibleRenderArgsError is documented as such; accept subclasses by name only
         if real != want:
             rep.violation(
